@@ -7,6 +7,7 @@ package runtime
 import (
 	"unsafe"
 
+	c "github.com/goplus/llgo/runtime/internal/clite"
 	"github.com/goplus/llgo/runtime/internal/clite/sync/atomic"
 	"github.com/goplus/llgo/runtime/internal/clite/time"
 	"github.com/goplus/llgo/runtime/internal/runtime/math"
@@ -110,10 +111,13 @@ const (
 
 func memclrHasPointers(ptr unsafe.Pointer, n uintptr) {
 	// bulkBarrierPreWrite(uintptr(ptr), 0, n)
-	// memclrNoHeapPointers(ptr, n)
+	memclrNoHeapPointers(ptr, n)
 }
 
 func memclrNoHeapPointers(ptr unsafe.Pointer, n uintptr) {
+	if n != 0 {
+		c.Memset(ptr, 0, n)
+	}
 }
 
 func fatal(s string) {
